@@ -203,8 +203,12 @@ theorem parse_render (head : List BlankLine) (items : List Item) (h : WF head it
   obtain ⟨ps, h1, h2⟩ := pest_render head items h
   unfold parseAsm
   rw [h1]
-  have := go_goods h2 (fun x hx => (h.2.1 x hx).2.1) (4 * (render head items).length + 97)
+  have := go_goods h2 (fun x hx => (h.2.1 x hx).2.1)
+    (4 * (render head items).length + 97 +
+      pairsSize (ps ++ [.mk Pest.EOI (render head items).length (render head items).length []]))
     (render head items).length
+  have hf : ∀ a b : Nat, 4 * a + 97 + b + 3 = 4 * a + 100 + b := by intro a b; omega
+  rw [hf] at this
   simpa using this
 
 end Layout
